@@ -309,6 +309,10 @@ def make_target(rec):
             rec.add("method", threading.get_ident(), "cb")
             boom(name)
 
+        def numbers(self, n):
+            rec.add("method", threading.get_ident(), "numbers")
+            return (i for i in range(int(n)))
+
         def big(self, n):
             rec.add("method", threading.get_ident(), "big")
             return "x" * int(n)
@@ -660,7 +664,7 @@ class Player:
                     rec.hook_raise.add(getattr(conn, "_c05_port", None))
             return "hello"
         self.srv = rd.Server(self.cfg["server"], commtimeout=self.cfg.get("timeout"), pool_size=self.cfg.get("pool", 4), pool_min=1,
-                             validator=validator, config_overrides={"MAX_MESSAGE_SIZE": MAXMSG})
+                             validator=validator, config_overrides=self.overrides())
         threading.settrace(rec.global_trace)     # applies to threads started from now on: loop thread, workers
         self.srv.start()
         target, _ = make_target(rec)
@@ -672,6 +676,15 @@ class Player:
             if port in rec.hook_raise:
                 raise ValueError("hook failed")
         self.srv.daemon.clientDisconnect = hook
+
+    def overrides(self):
+        over = {"MAX_MESSAGE_SIZE": MAXMSG}
+        if self.cfg.get("stream") is not None:
+            # item streams: [ITER_STREAM_LIFETIME, ITER_STREAM_LINGER]; housekeeping period = POLLTIMEOUT (multiplex: idle loop
+            # rounds and after every event; thread server: the Housekeeper thread, min(POLLTIMEOUT, max(COMMTIMEOUT, 5)))
+            over.update({"ITER_STREAMING": True, "ITER_STREAM_LIFETIME": self.cfg["stream"][0], "ITER_STREAM_LINGER": self.cfg["stream"][1],
+                         "POLLTIMEOUT": self.cfg.get("poll", 0.4)})
+        return over
 
     def stop(self, kill=False):
         global CURRENT
@@ -744,7 +757,7 @@ class Player:
             self.stop(kill=True)
             return {"violations": viol, "case": None, "dist": dist}
         self.settle(expect=1)
-        clients, dead = {}, set()
+        clients, dead, streams = {}, set(), {}
         wseq = [100]
         wlast, wgap = [time.time()], [0.0]
         stuck = [False]
@@ -829,6 +842,8 @@ class Player:
                 wping()
             elif op == "arm":
                 rec.arm_handover = True
+            elif op == "idle":
+                time.sleep(float(st[1]))      # nobody talks: item streams expire, housekeeping passes run
             elif op == "stall":
                 # the peers keep their connections open and stay silent; the witness keeps talking (COMMTIMEOUT applies to it too)
                 t_end = time.time() + float(st[1])
@@ -863,8 +878,27 @@ class Player:
             elif op == "send":
                 dist.append(st[3] if len(st) > 3 else "send")
                 clients[st[1]].send(bytes.fromhex(st[2]))
+            elif op in ("snext", "sclose"):
+                # consume items of / close the last item stream this client was given (DaemonObject methods)
+                sid = streams.get(st[1])
+                if sid is None:
+                    continue
+                for _ in range(int(st[2]) if op == "snext" else 1):
+                    clients[st[1]].send(rd.invoke_msg("Pyro.Daemon", "get_next_stream_item" if op == "snext" else "close_stream", (sid,),
+                                                      seq=55, serializer="serpent"))
+                    dist.append("stream:" + op)
+                    r = clients[st[1]].recv_msg()
+                    if not isinstance(r, dict):
+                        if r == "TIMEOUT":
+                            clients[st[1]].reset()
+                        else:
+                            clients[st[1]].close()
+                        dead.add(st[1])
+                        break
             elif op == "read":
                 r = clients[st[1]].recv_msg()
+                if isinstance(r, dict) and r.get("annotations", {}).get("STRM"):
+                    streams[st[1]] = r["annotations"]["STRM"].decode()
                 if not isinstance(r, dict):
                     if r == "TIMEOUT":
                         # neither an answer nor a close: only legitimate after a oneway call / when more bytes are awaited
@@ -904,6 +938,11 @@ class Player:
             a = self.acct()
         if not srv.loop_alive():
             viol.append(("request-loop-died:" + stype, "the daemon's request loop ended with %r" % (srv.loop_exception,)))
+            return give_up()
+        hk = getattr(srv.daemon.transportServer, "housekeeper", None) if stype == "thread" else None
+        if hk is not None and not hk.is_alive():
+            viol.append(("housekeeper-died:thread", "the daemon's Housekeeper thread ended (an exception left Daemon._housekeeping): "
+                         "abandoned item streams are never cleaned up again"))
             return give_up()
         if a != 1:
             if stype == "thread" and a > 1:
@@ -1001,7 +1040,8 @@ class Player:
             if len(ep["sent"]) > 1:
                 anomalies.append("more than one message sent in one episode: %r" % (ep["sent"],))
             events.append({"conn": c, "connect": ep["connect"], "oneway": bool(ep["flags"] & protocol.FLAGS_ONEWAY),
-                           "callback": ep["method"] == "cb", "faults": ep["faults"]})
+                           "callback": ep["method"] == "cb", "faults": ep["faults"],
+                           "stream": ep["method"] == "numbers" and not (ep["flags"] & protocol.FLAGS_ONEWAY)})
             obs.append({"conn": c, "reply": ep["sent"][-1] if ep["sent"] else None,
                         "open": (ep["port"] not in closed and self.rec.port_open(ep["port"])) if is_last else True,
                         "hook": (ep["port"] in hooked) if is_last else False})
